@@ -37,6 +37,7 @@ type funcAn struct {
 	callID  map[ssa.Instruction]int32
 	exits   map[exitEff]bool
 	escapes map[*ssa.Alloc][]ssa.Instruction
+	fresh   map[ssa.Value][]ssa.Instruction // escape points of pointers a constructor step handed back (see freshResult)
 	unpub   map[string]bool
 }
 
@@ -55,7 +56,7 @@ func (e *Engine) analyze(ctx ctxKey, callPos token.Pos) *summary {
 	fr := &frame{fn: ctx.fn, ctx: ctx, pos: callPos}
 	e.stack = append(e.stack, fr)
 	fa := &funcAn{e: e, fn: ctx.fn, ctx: ctx, fr: fr, boolIdx: map[ssa.Value]int{}, callID: map[ssa.Instruction]int32{},
-		exits: map[exitEff]bool{}, escapes: map[*ssa.Alloc][]ssa.Instruction{}, unpub: map[string]bool{}}
+		exits: map[exitEff]bool{}, escapes: map[*ssa.Alloc][]ssa.Instruction{}, fresh: map[ssa.Value][]ssa.Instruction{}, unpub: map[string]bool{}}
 	for _, u := range strings.Split(ctx.unpub, ",") {
 		if u != "" {
 			fa.unpub[u] = true
@@ -154,7 +155,7 @@ func (fa *funcAn) prepare() {
 
 // escapePoints returns the instructions at which the address of a local allocation becomes visible to
 // code outside this function (stored, passed, captured, converted to an interface, returned).
-func (fa *funcAn) escapePoints(a *ssa.Alloc) []ssa.Instruction {
+func (fa *funcAn) escapePoints(a ssa.Value) []ssa.Instruction {
 	var out []ssa.Instruction
 	var visit func(v ssa.Value, depth int)
 	visit = func(v ssa.Value, depth int) {
@@ -202,6 +203,15 @@ func (fa *funcAn) unpublishedAt(v ssa.Value, at ssa.Instruction) bool {
 			}
 		}
 		if a == nil {
+			// the object a constructor step of the program built and handed back unpublished
+			if esc, isFresh := fa.freshResult(an.Origin(v)); isFresh {
+				for _, e := range esc {
+					if e != at && an.Reaches(e, at) {
+						return false
+					}
+				}
+				return true
+			}
 			return false
 		}
 	}
@@ -218,6 +228,70 @@ func (fa *funcAn) unpublishedAt(v ssa.Value, at ssa.Instruction) bool {
 		}
 	}
 	return true
+}
+
+// freshResult: v is the pointer result of a static call of a function of the program every return of which hands out,
+// at that index, nil or a struct it allocated itself and made visible nowhere but in its returns.  The escape points
+// of v in this function are returned (computed like those of a local allocation).
+func (fa *funcAn) freshResult(v ssa.Value) ([]ssa.Instruction, bool) {
+	if esc, ok := fa.fresh[v]; ok {
+		return esc, esc != nil
+	}
+	fa.fresh[v] = nil
+	if in, ok := v.(ssa.Instruction); !ok || in.Parent() != fa.fn {
+		return nil, false
+	}
+	call, idx := an.CallOf(v)
+	if call == nil {
+		return nil, false
+	}
+	if idx < 0 {
+		idx = 0
+	}
+	h := call.Call.StaticCallee()
+	if h == nil || len(h.Blocks) == 0 || !fa.e.inScope(h) || h.Signature.Results().Len() <= idx {
+		return nil, false
+	}
+	if _, isPtr := h.Signature.Results().At(idx).Type().Underlying().(*types.Pointer); !isPtr {
+		return nil, false
+	}
+	ha := &funcAn{e: fa.e, fn: h}
+	n := 0
+	okAll := true
+	an.Instrs(h, func(in ssa.Instruction) {
+		ret, isRet := in.(*ssa.Return)
+		if !isRet || len(ret.Results) <= idx {
+			return
+		}
+		rv := ret.Results[idx]
+		if an.IsNilConst(rv) {
+			return
+		}
+		al, isAlloc := an.Origin(rv).(*ssa.Alloc)
+		if !isAlloc {
+			okAll = false
+			return
+		}
+		if _, isStruct := an.Deref(al.Type()).Underlying().(*types.Struct); !isStruct {
+			okAll = false
+			return
+		}
+		for _, e := range ha.escapePoints(al) {
+			if _, atRet := e.(*ssa.Return); !atRet {
+				okAll = false
+			}
+		}
+		n++
+	})
+	if !okAll || n == 0 {
+		return nil, false
+	}
+	esc := fa.escapePoints(v)
+	if esc == nil {
+		esc = []ssa.Instruction{}
+	}
+	fa.fresh[v] = esc
+	return esc, true
 }
 
 func (fa *funcAn) getCell(st lstate, idx int) int8 { return int8((st.cells >> (2 * uint(idx))) & 3) }
